@@ -29,14 +29,7 @@ def regenerate(R):
         stub = ("-- extraction failed, see the check output\nnamespace Heimdall.Gen.Signer\n"
                 "def mutexes : List String := []\ndef fields : List String := []\n"
                 "def outsideWrites : List String := [\"extraction failed\"]\n"
-                "def protocol : List (String × List String) := []\ndef signParams : List String := []\n"
-                "def signReceiver : String := \"\"\ndef claimOps : List (String × String × String) := []\n"
-                "def signerSetup : List (String × String) := []\ndef signAssignments : List (String × String) := []\n"
-                "def loadAssignments : List (String × String) := []\ndef jwkLiteral : List (String × String) := []\n"
-                "def joseAlgorithm : List (String × String) := []\ndef rsaAlgorithms : List (Nat × String) := []\n"
-                "def ecdsaAlgorithms : List (Nat × String) := []\n"
-                "def joseSupport : List (String × List Nat) := []\ndef selectKey : List String := []\n"
-                "end Heimdall.Gen.Signer\n")
+                "def protocol : List (String × List String) := []\nend Heimdall.Gen.Signer\n")
         with vlib.LeanLock():
             with open(GEN_FILE, "w") as fh:
                 fh.write(stub)
@@ -495,17 +488,17 @@ def run(R):
         "sync.RWMutex implements reader/writer exclusion (Go runtime, trusted); Model/SignerConc.lean abstracts it as "
         "atomic acquire/release steps; data-race freedom is a runtime property (race detector in the thorough tier "
         "as supporting evidence only)",
-        "the abstraction of extracted source facts (Model/SignerProtocol.lean: abstractEv, canon, abstractClaimOp) is "
-        "part of the trusted tie",
+        "the reading of the extracted synchronisation events as critical sections (Model/SignerProtocol.lean: "
+        "abstractEv, sections) and the inlining of receiver method calls by the extractor are part of the trusted tie",
         "the issue time is read from the wall clock inside Sign: the check brackets it by clock readings before and "
         "after the call and compares exp/nbf relative to iat",
     ]
     if gen_err:
-        R.violation("extraction of the signer facts from the source failed: " + gen_err, {"error": gen_err},
+        R.violation("extraction of the locking protocol of jwtSigner from the source failed: " + gen_err, {"error": gen_err},
                     no_input=True)
     if not lean_ok:
-        R.violation("theorems / source obligations of Props/C16.lean no longer check (locking protocol, claim program, "
-                    "signer setup or Entry.JWK read off the source are not the ones the proofs are about): "
+        R.violation("theorems / source obligations of Props/C16.lean no longer check (the critical sections of jwtSigner "
+                    "read off the source are not the locking protocol the proofs are about): "
                     + "; ".join(R.lean["failed"])[:600],
                     {"lean_log": R.lean["log"], "failed": R.lean["failed"],
                      "theorems": R.lean.get("failed_theorems"),
